@@ -1382,6 +1382,11 @@ int ov_raw_seek(OggVorbis_File *vf,ogg_int64_t pos){
         ogg_stream_reset_serialno(&work_os,serialno);
         vf->ready_state=STREAMSET;
         firstflag=(pagepos<=vf->dataoffsets[link]);
+      }else if(vf->current_serialno==ogg_page_serialno(&og) &&
+               pagepos<=vf->dataoffsets[vf->current_link]){
+        /* we were already set to this link, so the search above did not
+           run; the first==last page rule applies all the same */
+        firstflag=1;
       }
 
       ogg_stream_pagein(&vf->os,&og);
